@@ -468,8 +468,9 @@ class ScaledInteger(HasUnit, DataType):
         low, high = self(self.min), self(self.max)
         if low <= result <= high:
             return result
-        if self.min - self.scale < value < self.max + self.scale:
-            # silently clamp when outside by not more than self.scale
+        if low - self.scale < value < high + self.scale:
+            # silently clamp when outside by not more than self.scale; measured from
+            # the limits on the grid, which are the ones enforced above and exported
             return clamp(low, result, high)
         raise RangeError(f'{value:.14g} must be between between {self.min:g} and {self.max:g}')
 
